@@ -353,28 +353,38 @@ fn run_cover(cfg: &Cfg) -> ! {
     rep.finish(cfg, "exploration", &rule, &["exact i128 edge functions on dyadic coordinates"]);
 }
 
-fn tex_repeat(r: &mut Report) {
-    for (w, h) in [(1u32, 1u32), (2, 2), (4, 2), (8, 8), (16, 4)] {
+fn tex_repeat(r: &mut Report) { tex_repeat_with(r, false) }
+
+/// deep: more sizes and, per binade 2^e .. 2^(e+1) (e = 0..30, both signs), the first, middle and last eight floats
+fn tex_repeat_with(r: &mut Report, deep: bool) {
+    let sizes: Vec<(u32, u32)> = if deep { vec![(1, 1), (2, 2), (4, 2), (8, 8), (16, 4), (2, 64), (256, 1), (1024, 32)] } else { vec![(1, 1), (2, 2), (4, 2), (8, 8), (16, 4)] };
+    for (w, h) in sizes {
         let tex = Texture::from(Buf2::new_with((w, h), |x, y| (x, y)));
-        let s = SamplerRepeatPot::new(&tex);
         let mut cs: Vec<f32> = vec![];
         for k in -(2 * 16 + 1)..=(2 * 16 + 1) { let k = k as f32; cs.extend([k, k + 0.5, f32::from_bits(k.to_bits().wrapping_add(1)), f32::from_bits(k.to_bits().wrapping_sub(1))]); }
         for e in 0..31 { let p = (2.0f32).powi(e); cs.extend([p, -p, p + 1.0, -p - 1.0]); }
         cs.extend([2147483520.0, -2147483648.0, 1e-30, -1e-30, -0.0]);
+        if deep { for e in 0..31 { let (lo, mid, hi) = ((2.0f32).powi(e).to_bits(), ((2.0f32).powi(e) * 1.5).to_bits(), (2.0f32).powi(e + 1).to_bits()); for k in 0..8u32 { for b in [lo + k, mid + k, mid - 1 - k, hi - 1 - k] { let x = f32::from_bits(b); if x < 2147483648.0 { cs.extend([x, -x]); } } } } }
         for &u in &cs { for &v in &[0.5f32, -0.5, -1.0, -3.0, 2.0] {
             for swap in [false, true] {
                 let (cu, cv) = if swap { (v, u) } else { (u, v) };
                 if !cu.is_finite() || !cv.is_finite() { continue; }
-                r.eval();
-                let exp = (((cu as f64).floor() as i64).rem_euclid(w as i64) as u32, ((cv as f64).floor() as i64).rem_euclid(h as i64) as u32);
-                let case = obj! {"kind" => "tex", "w" => w, "h" => h, "u" => fbits(cu), "v" => fbits(cv)};
-                match caught(|| s.sample_abs(&tex, uv(cu, cv))) {
-                    Ok(g) if g == exp => { if cu < 0.0 || cv < 0.0 { r.nontrivial(); } }
-                    Ok(g) => r.violation(format!("consumer-tex-repeat|{w}x{h}|u={cu}|v={cv}"), format!("[{CFG_NAME}] SamplerRepeatPot {w}x{h} at ({cu},{cv}) -> texel {g:?}, expected {exp:?}"), case),
-                    Err(p) => r.violation(format!("consumer-tex-repeat-panic|{w}x{h}|u={cu}|v={cv}"), format!("[{CFG_NAME}] SamplerRepeatPot {w}x{h} at ({cu},{cv}) panicked: {p}"), case),
-                }
+                tex_case(&tex, cu, cv, r);
             }
         }}
+    }
+}
+
+fn tex_case(tex: &Texture<Buf2<(u32, u32)>>, cu: f32, cv: f32, r: &mut Report) {
+    let (w, h) = (tex.width() as u32, tex.height() as u32);
+    let s = SamplerRepeatPot::new(tex);
+    r.eval();
+    let exp = (((cu as f64).floor() as i64).rem_euclid(w as i64) as u32, ((cv as f64).floor() as i64).rem_euclid(h as i64) as u32);
+    let case = obj! {"kind" => "tex", "w" => w, "h" => h, "u" => fbits(cu), "v" => fbits(cv)};
+    match caught(|| s.sample_abs(tex, uv(cu, cv))) {
+        Ok(g) if g == exp => { if cu < 0.0 || cv < 0.0 { r.nontrivial(); } }
+        Ok(g) => r.violation(format!("consumer-tex-repeat|{w}x{h}|u={cu}|v={cv}"), format!("[{CFG_NAME}] SamplerRepeatPot {w}x{h} at ({cu},{cv}) -> texel {g:?}, expected {exp:?}"), case),
+        Err(p) => r.violation(format!("consumer-tex-repeat-panic|{w}x{h}|u={cu}|v={cv}"), format!("[{CFG_NAME}] SamplerRepeatPot {w}x{h} at ({cu},{cv}) panicked: {p}"), case),
     }
 }
 
@@ -495,6 +505,17 @@ fn run_xform(cfg: &Cfg) -> ! {
     rep.finish(cfg, "exploration", &rule, &["accuracy class per backend as in C20"]);
 }
 
+fn run_tex(cfg: &Cfg) -> ! {
+    let mut rep = Report::new();
+    rep.set("configuration", CFG_NAME);
+    let mut r = Report::new();
+    tex_repeat_with(&mut r, true);
+    rep.merge(r);
+    rep.sample(0, || obj! {"configuration" => CFG_NAME, "texture" => "8x8", "uv" => vec![4194305.0f32, -0.5]});
+    let rule = format!("configuration {CFG_NAME}: SamplerRepeatPot::sample_abs through this configuration's float backend on 8 power-of-two texture sizes up to 1024x32, each axis over integers and half-integers -33..33 and their bit-neighbours, +-2^e and +-(2^e + 1), and the first, middle and last eight floats of every binade 2^e..2^(e+1) for e = 0..30 in both signs: texel = (floor(u) mod w, floor(v) mod h) computed in exact integer arithmetic, no panic");
+    rep.finish(cfg, "exploration", &rule, &["|coordinate| < 2^31 as the property states"]);
+}
+
 fn run_color(cfg: &Cfg) -> ! {
     let mut rep = Report::new();
     rep.set("configuration", CFG_NAME);
@@ -519,7 +540,7 @@ fn replay_case(case: &J, r: &mut Report) {
         "tri-den" => { let v: Vec<i32> = case.get("t").unwrap().as_arr().unwrap().iter().map(|x| x.as_i64().unwrap() as i32).collect(); let g = |k: &str| case.get(k).unwrap().as_i64().unwrap() as i32; tri_cover_den([(v[0], v[1]), (v[2], v[3]), (v[4], v[5])], g("den"), (g("ox"), g("oy")), r) }
         "color" => { let a = case.get("c").unwrap().as_arr().unwrap(); color_case([parse_fbits(&a[0]).unwrap(), parse_fbits(&a[1]).unwrap(), parse_fbits(&a[2]).unwrap()], r) }
         "tri" => { let v: Vec<i32> = case.get("t").unwrap().as_arr().unwrap().iter().map(|x| x.as_i64().unwrap() as i32).collect(); tri_cover([(v[0], v[1]), (v[2], v[3]), (v[4], v[5])], r) }
-        "tex" => { let mut rr = Report::new(); tex_repeat(&mut rr); let want = format!("u={}|v={}", fb("u"), fb("v")); for (k, v) in rr.viols { if k.contains(&want) { r.violation(k, v.what, v.case); } } }
+        "tex" => { let g = |k: &str| case.get(k).unwrap().as_u64().unwrap() as u32; let tex = Texture::from(Buf2::new_with((g("w"), g("h")), |x, y| (x, y))); tex_case(&tex, fb("u"), fb("v"), r) }
         #[cfg(not(feature = "cfg_none"))]
         "wrap" | "norm" | "clamp" => { let mut rr = Report::new(); fp_consumers(&mut rr); for (k, v) in rr.viols { r.violation(k, v.what, v.case); } }
         #[cfg(feature = "cfg_libm")]
@@ -536,9 +557,10 @@ fn replay_case(case: &J, r: &mut Report) {
 
 fn main() {
     report::install_panic_hook();
-    let cfg = Cfg::from_args(|s| if s.starts_with("color") { "C16".into() } else if s.starts_with("xform") { "C09".into() } else if s.starts_with("cover") { "C04".into() } else { "C20".into() });
+    let cfg = Cfg::from_args(|s| if s.starts_with("color") { "C16".into() } else if s.starts_with("tex") { "C12".into() } else if s.starts_with("xform") { "C09".into() } else if s.starts_with("cover") { "C04".into() } else { "C20".into() });
     if cfg.replay.is_some() { replay_main(&cfg, replay_case); }
     if cfg.part.starts_with("color") { run_color(&cfg); }
+    if cfg.part.starts_with("tex") { run_tex(&cfg); }
     if cfg.part.starts_with("cover") { run_cover(&cfg); }
     #[cfg(not(feature = "cfg_none"))]
     if cfg.part.starts_with("xform") { run_xform(&cfg); }
